@@ -290,6 +290,9 @@ class GateSemanticsWorld(_DeviceBase):
             init_sut = to_order(init_ref, n, order) if order else init_ref
             if op["b"] == "sympy":
                 init_sut = np.asarray(init_sut).reshape(-1, 1)
+        if init_sut is not None and op["b"] != "sympy":
+            init_sut = np.array(init_sut, dtype=np.complex128)       # the caller's own complex array
+        init_keep = None if init_sut is None else np.array(init_sut, copy=True)
         self.sig.add((k, op["b"], n, min(len(op["gates"]), 6), init_ref is not None, str(op.get("bias"))))
         site = f"{k}:{op['b']}"
         if k == "exact":
@@ -374,6 +377,8 @@ class GateSemanticsWorld(_DeviceBase):
             self._last = {"f": fnum, "sv": None, "ns": ns}
         if C.snap_circuit(circ) != snap:
             V.append(Violation("C01", "source-circuit-mutated", site, {"op": op}))
+        if init_keep is not None and op["b"] != "sympy" and not np.array_equal(init_keep, init_sut):
+            V.append(Violation("C01", "initial-statevector-modified", site, {"op": op}))
         if record and not V and ce is None:
             self.history[json.dumps(op, sort_keys=True)] = self._last
             if len(self.history) > 6:
@@ -641,6 +646,9 @@ class ExpectationWorld(_DeviceBase):
             init_sut = to_order(init_ref, n, order) if order else init_ref
             if op["b"] == "sympy":
                 init_sut = np.asarray(init_sut).reshape(-1, 1)
+        if init_sut is not None and op["b"] != "sympy":
+            init_sut = np.array(init_sut, dtype=np.complex128)       # the caller's own complex array
+        init_keep = None if init_sut is None else np.array(init_sut, copy=True)
         self.sig.add((k, op["b"], n, cplx, has_meas, desired is not None, init_ref is not None, min(len(val), 4)))
         site = f"{k}:{op['b']}" + (":desired" if desired else (":mixed" if has_meas else "")) + (":complex" if cplx else "")
         # expectation: documented refusals
@@ -733,6 +741,8 @@ class ExpectationWorld(_DeviceBase):
             gotc = complex(sympy.N(got))
         if dict(qop.terms) != val or C.snap_circuit(circ) != snap:
             V.append(Violation("C02", "input-mutated", site, {"op": op}))
+        if init_keep is not None and op["b"] != "sympy" and not op.get("bad_init") and not np.array_equal(init_keep, init_sut):
+            V.append(Violation("C02", "initial-statevector-modified", site, {"op": op}))
         var_exact = sum(abs(c) ** 2 * (1 - pk[t] ** 2) for t, c in val.items() if t)
         var_re = sum(complex(c).real ** 2 * (1 - pk[t] ** 2) for t, c in val.items() if t)
         var_im = sum(complex(c).imag ** 2 * (1 - pk[t] ** 2) for t, c in val.items() if t)
